@@ -116,6 +116,31 @@ def check_set(p, specs, label, parsed=False):
         if probs:
             kind = 'join-columns-collide' if all('COLLIDE' in x for x in probs) else 'fk-differs'
             p['violations'].append(violation(PID, kind, dict(case, route=route), observed=probs[:4], detail=probs[0][:500]))
+            continue
+        if route == 'api' and label == 'single':
+            # the same database after it was rendered once and then edited in place: the types of table b's columns change and
+            # table b moves to schema "moved" (join tables are typed like the referenced columns and live in the left table's schema)
+            m2 = A.clone(m)
+            tb = m2['tables'][1]
+            for c, dc in zip(tb['columns'], db.tables[1].columns):
+                c['type'] = ['str', 'bigint']
+                dc.type = 'bigint'
+            old = (tb['schema'], tb['name'])
+            tb['schema'] = 'moved'
+            db.tables[1].schema = 'moved'
+            for r in m2['refs']:
+                for ep in r['col1'] + r['col2']:
+                    if (ep[0], ep[1]) == old:
+                        ep[0] = 'moved'
+            try:
+                probs2 = sqlref.compare_c04(m2, ddl.read(db.sql))
+            except Exception as e:
+                probs2 = [f'{type(e).__name__}: {e}']
+            p['evaluations'] += 1
+            probs2 = [x for x in probs2 if 'COLLIDE' not in x]
+            if probs2:
+                p['violations'].append(violation(PID, 'fk-differs-after-edit', dict(case, route=route), observed=probs2[:4],
+                                                 detail='after rendering once, re-typing the columns of table b and moving it to schema "moved": ' + probs2[0][:400]))
     p['nontrivial'].add(digest(case))
 
 
